@@ -47,8 +47,11 @@ PROGRAMS = [
     "try:\n    a\nexcept* E:\n    b",
     "def f():\n    if a:\n        b\n    elif c:\n        d\n    elif e:\n        g\n    else:\n        h",
     "class C:\n    @d\n    def m(s): return 1\n    x = 'é'; y = (\n        2)",
+    # blanks that are content, not trivia: inside string literals, f-string text / format specs, lines of a triple-quoted string
+    "s = 'a b' + f'{x} y {z:> 4}'\nt = \'\'\'l1\n l2\'\'\'",
 ]
 TEXTS = ['', ' ', 'x', '\n', ':', '#', '(', ')', 'pass', '\n    ', '=', 'if ', ';', ',', 'é', '\\\n', '"']
+TEXTS_BLANK = ['   ', '\t']  # only for the program whose blanks are content (the last one)
 TEXTS_EXTENT = ['', 'x', 'pass', 'p; q', '(p,\n q)', 'é', '#']
 for _p in PROGRAMS:
     ast.parse(_p)
@@ -347,7 +350,7 @@ def run_shard(desc, tier, res):
     if desc['kind'] == 'rect':
         for o1 in range(desc['from'], desc['to']):
             for o2 in range(o1, min(len(src), o1 + SPAN[tier]) + 1):
-                for text in TEXTS:
+                for text in TEXTS + (TEXTS_BLANK if pi == len(PROGRAMS) - 1 else []):
                     if o1 == o2 and not text:
                         continue
                     run_rect(fst, pi, o1, o2, text, res)
